@@ -489,11 +489,11 @@ func prepareCall(fr *frame, call *ssa.CallCommon) (fn value, args []value) {
 		// Interface method invocation.
 		recv := v.(iface)
 		if recv.t == nil {
-			panic("method invoked on nil interface")
+			panic(targetRuntimeError("invalid memory address or nil pointer dereference (method call on nil interface)"))
 		}
 		if f := lookupMethod(fr.i, recv.t, call.Method); f == nil {
-			// Unreachable in well-typed programs.
-			panic(fmt.Sprintf("method set for dynamic type %v does not contain %s", recv.t, call.Method))
+			// a method of the modelled reflect.Type that the model lacks (or an engine gap): not a verdict
+			unsupported("method %s is not modelled for dynamic type %v", call.Method.Name(), recv.t)
 		} else {
 			fn = f
 		}
